@@ -1,15 +1,16 @@
 """C19 – NashMTL's state: reset() means fresh, weights are reused as scheduled.
 (spec/NashMTL.tla, spec/TraceNashMTL.tla, harness/nash_run.py)
 
-1. TLC: every history over {A, B, C, reset} of length <= 5, every k in 1..4 and every optim_niter in
-   {1, 2, 20}: the field-level state machine (step / problem / prvs_alpha / normalization_factor;
+1. TLC: every history over {A, B, C, reset} of length <= 5, every k in 1..4, every optim_niter in
+   {1, 2, 20} and max_norm > 0 as well as max_norm <= 0 (clipOn: the rescaling and the norm clause exist
+   only in the first case; the schedule, period and reset clauses are the same in both): the field-level state machine (step / problem / prvs_alpha / normalization_factor;
    branches init, solve, reuse, clip; Reset) agrees with the history-based property layer (recompute
    iff the number of calls since the last reset is a multiple of k; weights = chain of Solves, all with
    the instance's optim_niter, over the recompute matrices of the segment; the weights of a reuse call
    are those of the recompute call that opened its period), a copy constructed fresh at the last reset
    point run in lock-step is indistinguishable, reset restores what the constructor sets, a reuse call
    leaves the weights untouched.  The model also exports the presentation space (rows x max_norm
-   binding or not x alphabet kind).
+   binding / loose / zero / negative x alphabet kind).
 2. S->C: the exported histories (sampled in quick - half of them among those with a reuse call after
    a second recomputation -, all in thorough) run on ONE real instance; for every call
      - the model's term is interpreted by FRESH real instances (update_weights_every = 1, same
@@ -18,12 +19,13 @@
      - on a reuse call the weight vector returned by the weighting must be the one returned on the
        recompute call that opened the period (named by the model), up to each call's own rescaling;
      - cvxpy Problem.solve invocations are counted (0 on reuse calls, > 0 on scheduled
-       recomputations); |out| <= max_norm; no exception.
-   float32 and float64, max_norm binding and not, 2..5 rows, optim_niter 1 / 2 / 20, four kinds of
+       recomputations); |out| <= max_norm when max_norm > 0; no exception.
+   float32 and float64, max_norm binding and not, max_norm = 0 and max_norm = -1 (rescaling disabled), 2..5 rows, optim_niter 1 / 2 / 20, four kinds of
    alphabets per run: ordinary, small (x 2^-10: the inner loop exhausts its budget), gaussian, and
    struggle (gaussian matrices found by a seeded search on the code under test on which the solver
    returns no solution at a recomputation that is not the first of its segment).
-3. C->S: random longer histories (more matrices, k up to 5, all of the above) are recorded from the
+3. C->S: random longer histories (more matrices, k up to 5, all of the above; every fifth episode with
+   max_norm <= 0 and k >= 2, its norm observation recorded as it is and ignored by the model) are recorded from the
    real instance and validated by TLC (TraceNashMTL): a "plan" pass names the terms to interpret and
    the period openers (the harness never encodes the schedule), a "validate" pass checks every call
    against the property layer.
@@ -46,6 +48,7 @@ from ..tlc import run_tlc
 
 PID = "C19"
 BASE_CFG = {"m": 3, "dtype": "float64", "max_norm": 1.0, "alphabet": "ordinary"}
+BASE_OFF = {"m": 3, "dtype": "float64", "max_norm": 0.0, "alphabet": "ordinary"}     # clipOn = FALSE
 NITERS = (1, 2, 20)
 PERIOD_CLAUSE = "reuse_call_did_not_apply_the_weights_of_the_recompute_call_of_its_period"
 VALUE_CLAUSE = "output_is_not_clip_of_scheduled_weights_times_matrix"
@@ -76,7 +79,7 @@ def _key(clause: str, cfg: dict, k: int, events) -> str:
 
 
 def _clause(call: dict, rec: dict) -> str:
-    """Same clauses, same order as Clause(J) of TraceNashMTL.tla."""
+    """Same clauses, same order as Clause(J) of TraceNashMTL.tla (call["clip"]: the scenario's clipOn)."""
     if rec["exc"] != "none":
         return "call_raised"
     if call["recompute"] and rec["solves"] == 0:
@@ -87,7 +90,7 @@ def _clause(call: dict, rec: dict) -> str:
         return PERIOD_CLAUSE
     if not rec["ok_value"]:
         return VALUE_CLAUSE
-    if not rec["ok_norm"]:
+    if call["clip"] and not rec["ok_norm"]:                      # clipOn of the model: vacuous when max_norm <= 0
         return "norm_exceeds_max_norm"
     return "none"
 
@@ -117,7 +120,11 @@ def _describe(clause: str, cfg: dict, k: int, events, call: dict, rec: dict) -> 
 
 def _count_call(ctx: Ctx, cfg: dict, call: dict, rec: dict) -> None:
     ctx.count("calls_recompute" if call["recompute"] else "calls_reuse")
-    ctx.count("calls_clip_binding" if rec["binding"] else "calls_clip_not_binding")
+    if nr.clip_on(cfg):
+        ctx.count("calls_clip_binding" if rec["binding"] else "calls_clip_not_binding")
+    else:
+        ctx.count("calls_clip_disabled_recompute" if call["recompute"] else "calls_clip_disabled_reuse")
+        ctx.count("calls_max_norm_zero" if float(cfg["max_norm"]) == 0 else "calls_max_norm_negative")
     if not rec.get("repro", True):
         ctx.count("calls_excluded_term_not_reproducible")
     if call["recompute"]:
@@ -140,6 +147,8 @@ def judge(ctx: Ctx, cfg: dict, k: int, events, calls: list, recs: list) -> bool:
         ctx.evaluations += 1
         if rec["at"] != call["at"] or rec["sym"] != call["sym"]:
             raise MachineryError(f"replay out of step with the model: {call} vs {rec}")
+        if call["clip"] != nr.clip_on(cfg):
+            raise MachineryError(f"scenario of clipOn = {call['clip']} replayed with max_norm = {cfg['max_norm']}")
         cl = _clause(call, rec)
         if cl != "none":
             ctx.violation(_key(cl, cfg, k, events), _describe(cl, cfg, k, events, call, rec),
@@ -230,7 +239,8 @@ def _tlc_trace(ctx: Ctx, mode: str, episodes: list) -> object:
 
 def _plan(ctx: Ctx, eps: list) -> dict:
     """Pass 1: TLC names, for every call, the term to interpret and the call that opened its period."""
-    skeleton = [{"ep": e["ep"], "k": e["k"], "niter": int(e["cfg"].get("niter", 20)), "interp": [],
+    skeleton = [{"ep": e["ep"], "k": e["k"], "clip": nr.clip_on(e["cfg"]), "niter": int(e["cfg"].get("niter", 20)),
+                 "interp": [],
                  "events": [{"t": "reset" if s == "reset" else "call", "sym": s, "solves": 0, "exc": "none",
                              "oid": 0, "wid": 0, "norm_ok": True} for s in e["events"]]} for e in eps]
     res = _tlc_trace(ctx, "plan", skeleton)
@@ -293,7 +303,8 @@ def validate_episodes(ctx: Ctx, eps: list) -> dict:
             ctx.evaluations += 1
             if r["exc"] == "none":
                 _count_call(ctx, e["cfg"], nd, r)
-        logged.append({"ep": e["ep"], "k": e["k"], "niter": int(e["cfg"].get("niter", 20)), "events": evs,
+        logged.append({"ep": e["ep"], "k": e["k"], "clip": nr.clip_on(e["cfg"]),
+                       "niter": int(e["cfg"].get("niter", 20)), "events": evs,
                        "interp": interp})
         ctx.count(f"episodes_alphabet_{e['cfg'].get('alphabet', 'ordinary')}")
     res = _tlc_trace(ctx, "validate", logged)
@@ -304,7 +315,8 @@ def validate_episodes(ctx: Ctx, eps: list) -> dict:
         if rj["clause"] == "MISSING":
             raise MachineryError(f"no interpretation for the term of episode {rj['ep']} event {rj['at']}")
         rec = next(r for r in recs_by_ep[rj["ep"]] if r["at"] == rj["at"])
-        call = {"at": rj["at"], "sym": rec["sym"], "recompute": rj["recompute"], "chain": rj["chain"]}
+        call = {"at": rj["at"], "sym": rec["sym"], "recompute": rj["recompute"], "chain": rj["chain"],
+                "clip": nr.clip_on(e["cfg"])}
         ctx.violation(_key(rj["clause"], e["cfg"], e["k"], e["events"]),
                       "[trace rejected by TraceNashMTL] " + _describe(rj["clause"], e["cfg"], e["k"], e["events"], call, rec),
                       {"kind": "episode", "cfg": e["cfg"], "k": e["k"], "events": e["events"]})
@@ -315,14 +327,21 @@ def validate_episodes(ctx: Ctx, eps: list) -> dict:
     return summ
 
 
-def random_episodes(ctx: Ctx, n: int, rng: random.Random, cfgs: list) -> list:
+def random_episodes(ctx: Ctx, n: int, rng: random.Random, cfgs: list, cfgs_off: list) -> list:
+    """cfgs: presentations with max_norm > 0, cfgs_off: with max_norm <= 0 (every fifth episode)."""
     eps = []
     for i in range(n):
-        cfg = dict(cfgs[(13 * i + 7 * ctx.seed) % len(cfgs)], seed=ctx.seed)
+        off = i % 5 == 4
+        pool = cfgs_off if off else cfgs
+        cfg = dict(pool[(13 * i + 7 * ctx.seed) % len(pool)], seed=ctx.seed)
         cfg["niter"] = rng.choice([1, 2, 20, 20, 5])
         if rng.random() < 0.2:
-            cfg["max_norm"] = rng.choice([0.25, 2.0, 50.0])
+            other = rng.choice([0.25, 2.0, 50.0])
+            if not off:
+                cfg["max_norm"] = other
         k = rng.choice([1, 2, 2, 3, 3, 4, 5])
+        if off and k == 1:
+            k = 2 + i % 3                                           # (no reuse call with k = 1)
         nsym = rng.choice([2, 4, 6])
         dear = cfg["alphabet"] == "small" and cfg["niter"] > 2      # every recomputation runs the whole budget
         length = rng.randint(7, 10 if dear else 20)
@@ -338,8 +357,8 @@ def run(ctx: Ctx, replay: str | None) -> None:
     torch.manual_seed(ctx.seed)
     rng = random.Random(ctx.seed)
     ctx.rule = ("one case = (history over {A,B,C,reset} of length 5 incl. all its prefixes, k in 1..4, optim_niter in "
-                "{1,2,20}, presentation (rows m in 2..5, float32/float64, max_norm 1.0 = binding on recomputations / "
-                "3.0 = binding only on some reuse calls, alphabet kind ordinary / small / gauss / struggle)); "
+                "{1,2,20}, max_norm > 0 or not, presentation (rows m in 2..5, float32/float64, max_norm 1.0 = binding on "
+                "recomputations / 3.0 = binding only on some reuse calls / 0.0 and -1.0 = rescaling disabled, alphabet kind ordinary / small / gauss / struggle)); "
                 "non-trivial = contains a reuse call and either a second recomputation in a segment or a reset "
                 "followed by a call")
     cond = nr.conditioning(ctx.seed)
@@ -380,50 +399,63 @@ def run(ctx: Ctx, replay: str | None) -> None:
         if not res.coverage.get(act):
             raise MachineryError(f"vacuous model check: action {act} never taken")
     scns = res.prints.get("SCN", [])
-    if len(scns) != len(NITERS) * 4 * 4 ** 5:
-        raise MachineryError(f"expected {len(NITERS) * 4 * 4 ** 5} complete histories from TLC, got {len(scns)}")
+    if len(scns) != 2 * len(NITERS) * 4 * 4 ** 5:
+        raise MachineryError(f"expected {2 * len(NITERS) * 4 * 4 ** 5} complete histories from TLC, got {len(scns)}")
     pres = res.prints.get("CONF", [None])[0]
-    if not pres or len(pres) != 4 * 2 * len(nr.ALPHABET_KINDS):
+    if not pres or len(pres) != 4 * len(nr.CLIP) * len(nr.ALPHABET_KINDS):
         raise MachineryError(f"presentation space not exported by the model: {pres and len(pres)}")
     if ctx.tier == "thorough":
         deep = run_tlc("NashMTL", "MC_NashMTL_deep.cfg", workers="auto", seed=ctx.seed)
         ctx.add_tlc(deep)
         if deep.violated:
             raise MachineryError(f"NashMTL.tla (deep): {deep.violated} violated in the model\n{deep.cex[:1500]}")
-    scns.sort(key=lambda s: (s["k"], s["niter"], s["hist"]))
+    scns.sort(key=lambda s: (not s["clip"], s["k"], s["niter"], s["hist"]))
     ctx.extra["histories_exported"] = len(scns)
 
     phases["model_check"] = round(time.time() - t0, 1)
 
     # (b) specification -> code
     t0 = time.time()
-    cfgs = nr.config_list(pres)
+    all_cfgs = nr.config_list(pres)
+    # the presentations of clipOn = TRUE and of clipOn = FALSE (a scenario is replayed only on its own)
+    by_clip = {on: [c for c in all_cfgs if nr.clip_on(c) == on] for on in (True, False)}
+    if any(len(v) != len(all_cfgs) // 2 for v in by_clip.values()):
+        raise MachineryError("presentation space: clipOn = TRUE / FALSE halves are not of equal size")
+    cfgs = by_clip[True]
     jobs = []
+    rng_off = random.Random(f"{ctx.seed}:max_norm<=0")             # own stream: the clipOn sample does not move
     if ctx.tier == "quick":
-        for k in (1, 2, 3, 4):
-            for ni, niter in enumerate(NITERS):
-                per = 24 if niter <= 2 else 16          # (a solve chain with the full budget is 10x dearer)
-                pool = [s for s in scns if s["k"] == k and s["niter"] == niter]
-                deep_pool = [s for s in pool if _deep_reuse(s["calls"])]
-                half = per // 2 if deep_pool else 0
-                picked = rng.sample(deep_pool, min(half, len(deep_pool)))
-                rest = [s for s in pool if s not in picked]
-                picked += rng.sample(rest, per - len(picked))
-                t = (k - 1) * len(NITERS) + ni
-                for j, s in enumerate(picked):
-                    cfg = dict(cfgs[(13 * j + 5 * t + 7 * ctx.seed) % len(cfgs)], seed=ctx.seed, niter=niter)
-                    jobs.append((cfg, s["k"], s["hist"], s["calls"]))
+        for on in (True, False):
+            for k in (1, 2, 3, 4):
+                for ni, niter in enumerate(NITERS):
+                    per = 24 if niter <= 2 else 16          # (a solve chain with the full budget is 10x dearer)
+                    if not on:                              # rescaling disabled: a quarter as many
+                        per = per // 8 if k == 1 else per // 4          # (k = 1 has no reuse call)
+                    pool = [s for s in scns if s["clip"] == on and s["k"] == k and s["niter"] == niter]
+                    deep_pool = [s for s in pool if _deep_reuse(s["calls"])]
+                    half = per // 2 if deep_pool else 0
+                    r = rng if on else rng_off
+                    picked = r.sample(deep_pool, min(half, len(deep_pool)))
+                    rest = [s for s in pool if s not in picked]
+                    picked += r.sample(rest, per - len(picked))
+                    t = (k - 1) * len(NITERS) + ni
+                    for j, s in enumerate(picked):
+                        cl = by_clip[on]
+                        cfg = dict(cl[(13 * j + 5 * t + 7 * ctx.seed) % len(cl)], seed=ctx.seed, niter=niter)
+                        jobs.append((cfg, s["k"], s["hist"], s["calls"]))
         ctx.exhaustive = False
     else:
         for j, s in enumerate(scns):
-            jobs.append((dict(BASE_CFG, seed=ctx.seed, niter=s["niter"]), s["k"], s["hist"], s["calls"]))
-            rot = dict(cfgs[(13 * (j // 6) + 7 * ctx.seed) % len(cfgs)], seed=ctx.seed, niter=s["niter"])
-            if j % 6 == 0 and _okey(rot) != _okey(dict(BASE_CFG, niter=s["niter"])):
+            base = BASE_CFG if s["clip"] else BASE_OFF
+            cl = by_clip[s["clip"]]
+            jobs.append((dict(base, seed=ctx.seed, niter=s["niter"]), s["k"], s["hist"], s["calls"]))
+            rot = dict(cl[(13 * (j // 6) + 7 * ctx.seed) % len(cl)], seed=ctx.seed, niter=s["niter"])
+            if j % 6 == 0 and (_okey(rot) != _okey(dict(base, niter=s["niter"]))):
                 jobs.append((rot, s["k"], s["hist"], s["calls"]))
         ctx.exhaustive = True
         ctx.extra["exhaustive_family"] = ("all histories over {A,B,C,reset} of length <= 5 x k in 1..4 x optim_niter in "
-                                          f"{{1, 2, 20}} on {BASE_CFG}; every sixth of them once more on a rotating "
-                                          "presentation (rows x clip x dtype x alphabet kind)")
+                                          f"{{1, 2, 20}} on {BASE_CFG} and on {BASE_OFF}; every sixth of them once "
+                                          "more on a rotating presentation (rows x max_norm x dtype x alphabet kind)")
     for s in (jobs[0], jobs[len(jobs) // 2], jobs[-1]):
         ctx.sample({"scenario": {"cfg": s[0], "k": s[1], "hist": s[2], "calls": s[3]}})
     replay_scenarios(ctx, jobs)
@@ -434,11 +466,13 @@ def run(ctx: Ctx, replay: str | None) -> None:
     # (c) code -> specification
     t0 = time.time()
     n_ep = 64 if ctx.tier == "quick" else 256
-    summ = validate_episodes(ctx, random_episodes(ctx, n_ep, rng, cfgs))
+    summ = validate_episodes(ctx, random_episodes(ctx, n_ep, rng, cfgs, by_clip[False]))
     ctx.extra["trace_summary"] = summ
     phases["code_to_spec"] = round(time.time() - t0, 1)
     if not ctx.violations:
         for need in ("calls_recompute", "calls_reuse", "calls_clip_binding", "calls_clip_not_binding",
+                     "calls_clip_disabled_recompute", "calls_clip_disabled_reuse",
+                     "calls_max_norm_zero", "calls_max_norm_negative",
                      "reuse_calls_in_a_period_opened_by_an_exhausted_recompute",
                      "reuse_calls_after_a_failed_later_recompute",
                      *(f"histories_alphabet_{a}" for a in nr.ALPHABET_KINDS)):
